@@ -151,11 +151,11 @@ Proof.
   intros Hcap Hbe. unfold cpu_ptasks. rewrite Hcap, Hbe. cbn [app].
   eexists. split; [reflexivity|].
   intros pt Hin. apply in_app_or in Hin. destruct Hin as [Hin|Hin].
-  - destruct (feat c 1 && alloc_cfg_ok c && negb (is_nil (alloc_need 1000 c pods))) eqn:Hg;
+  - destruct (feat c 1 && alloc_cfg_ok c && negb (is_nil (alloc_need true c pods))) eqn:Hg;
       [|destruct Hin].
     destruct Hin as [<-|[]]. cbn. split; [lia|]. split; [eauto|].
     apply andb_true_iff in Hg. destruct Hg as [_ Hn].
-    destruct (alloc_need 1000 c pods); [discriminate|discriminate].
+    destruct (alloc_need true c pods); [discriminate|discriminate].
   - destruct (feat c 2 && used_cfg_ok c && c_evthrF c && negb (is_nil (used_need c))) eqn:Hg;
       [|destruct Hin].
     destruct Hin as [<-|[]]. cbn. split; [lia|]. split; [discriminate|].
